@@ -116,8 +116,7 @@ def big_cases(tier):
 
 
 def limit_cases(tier):
-    if tier == "quick":
-        return []
+    # both tiers (3 s): 1295 points is the documented limit (F28), 1296 the documented rejection
     return [
         dict(n=1295, layout="BME", variant=20, bpm_class="3dec", mode="beats", via="bytes", shift=0.0),
         dict(n=1296, layout="BME", variant=21, bpm_class="3dec", mode="beats", via="bytes", shift=0.0),
@@ -479,7 +478,7 @@ SUBS = [
         shards={"quick": 16, "thorough": 16},
     ),
     Sub("bigtempo", check_big, enumerate=big_cases, shards={"quick": 4, "thorough": 16}, exhaustive=False),
-    Sub("limit", check_limit, enumerate=limit_cases, shards={"quick": 1, "thorough": 2}, exhaustive=False),
+    Sub("limit", check_limit, enumerate=limit_cases, shards={"quick": 2, "thorough": 2}, exhaustive=False),
 ]
 
 MANIFEST = dict(
